@@ -1,4 +1,5 @@
 import AmVerif.Lemmas.Reload
+import AmVerif.Lemmas.TopoGraph
 import AmVerif.Props.C18
 /-!
 # C06 — reloads are precise and every one is reported exactly once
@@ -569,5 +570,20 @@ theorem C06_write_skel : skel_entry_UntypedEntry_write =
 example : (match skel_entry_UntypedEntry_write with
     | [.branch [[.acq .s_write g, _, _, .call .s_swap_any, .call .s_increment, _, .rel g', .ret], []], _] => g == g'
     | _ => false) = true := by decide
+
+/-! ## Unconditional forms: the sorted list of a pass has no duplicates (`topo_nodup`, for every graph) -/
+
+/-- **Each affected asset is rewritten at most once per pass**: whatever the graph (cyclic look-ups
+included), the set of notified entries and the loaders, `hot_reload` raises no reload id by more than one. -/
+theorem C06_at_most_once_per_pass (env : Env) (fuel : Nat) (s : St) (r : RSt)
+    (k : Key) (c' : Cell) (h : (hotReload env fuel s r).1.lookup k = some c') :
+    c'.rid ≤ s.ridOf k + 1 :=
+  C06_at_most_once_hot_reload env fuel s r (fun _ hk => AmVerif.Lemmas.TopoGraph.topo_nodup hk) k c' h
+
+/-- the same for one `run_update` (static mode: the pass run by `handle_events`) -/
+theorem C06_at_most_once_per_update (env : Env) (fuel : Nat) (s : St) (r : RSt)
+    (k : Key) (c' : Cell) (h : (runUpdate env fuel s r).1.lookup k = some c') :
+    c'.rid ≤ s.ridOf k + 1 :=
+  C06_at_most_once_update env fuel s r (fun _ hk => AmVerif.Lemmas.TopoGraph.topo_nodup hk) k c' h
 
 end AmVerif.Props.C06
